@@ -381,6 +381,19 @@ where
         vec.update_pointers()?;
         vec.validate_header()?;
 
+        // The file must hold the header plus all `capacity` elements the header
+        // claims; a shorter file has been cut short and must not be served.
+        let file_len = std::fs::metadata(&vec.file_path)
+            .map_err(|e| ZiporaError::io_error(&format!("Failed to get file size: {}", e)))?
+            .len();
+        let required_len = (vec.capacity() as u64)
+            .checked_mul(std::mem::size_of::<T>() as u64)
+            .and_then(|data_len| data_len.checked_add(HEADER_SIZE as u64));
+        match required_len {
+            Some(required_len) if required_len <= file_len => {}
+            _ => return Err(ZiporaError::invalid_data("File is shorter than header capacity")),
+        }
+
         Ok(vec)
     }
 
